@@ -112,6 +112,25 @@ def outsOf (p : Peer) (t : Table) : List Op → List Out
 /-- the part of the table that belongs to one peer -/
 def restrict (p : Peer) (t : Table) : Table := t.filter (fun kv => decide (kv.1.peer = p))
 
+/-! ### over the wire: `enip_srv_tcp` drops a session whose request raised, and the dropped session's end purges
+its connections (`logix.process( addr, data={} )` from the `finally` of the connection thread) -/
+def stepWire (t : Table) (op : Op) : Table × Out :=
+  let r := step t op
+  if r.2 = .failed then ((step r.1 (.fin op.peer)).1, .failed) else r
+
+def runWire (t : Table) : List Op → Table × List Out
+  | [] => (t, [])
+  | op :: ops =>
+    let r := stepWire t op
+    let rs := runWire r.1 ops
+    (rs.1, r.2 :: rs.2)
+
+def outsOfWire (p : Peer) (t : Table) : List Op → List Out
+  | [] => []
+  | op :: ops =>
+    let r := stepWire t op
+    if op.peer = p then r.2 :: outsOfWire p r.1 ops else outsOfWire p r.1 ops
+
 /-! ### the seeded defect, for the sensitivity witness: purge by host only -/
 def stepHostOnly (t : Table) : Op → Table × Out
   | .fclose p serial => (t.filter (fun kv => !(decide (kv.1.peer.host = p.host) && decide (kv.2.serial = serial))), .closed)
